@@ -136,5 +136,5 @@ def run(repo, seed, tier):
             'rule': '%d corpus texts (LF/CRLF, tabs, form feed, continuation lines, unicode identifiers, no final newline, '
                     'subscript/attribute targets, walrus, comprehension, except-as, with-as) x all names of get_names and '
                     'goto/get_references results; oracles: the text itself, tokenize, ast contexts' % len(CORPUS),
-            'samples': [c[:80] for c in CORPUS[:2]], 'violations': [v[0] for v in seen.values()][:10],
+            'samples': [c[:80] for c in CORPUS[:2]], 'violations': violations[:300],
             'violation_counts': {k: len(v) for k, v in seen.items()}}
